@@ -317,7 +317,9 @@ class Dispatcher:
 
     def handle_logging(self, conn, specifier, level):
         if specifier and specifier != '.':
-            modobj = self.secnode.modules[specifier]
+            modobj = self.secnode.modules.get(specifier)
+            if modobj is None:
+                raise NoSuchModuleError(f'Module {specifier!r} does not exist')
             modobj.setRemoteLogging(conn, level, self.send_log_msg)
         else:
             self.set_all_log_levels(conn, level)
